@@ -220,7 +220,7 @@ func runC20(r *Run) {
 			}
 		case "/tx":
 			q.target = "/tx?" + nameParam + "&lockID=5"
-			body := t.Pick([]int{20, 25, 25, 30})
+			body := t.Pick([]int{15, 20, 20, 25, 20})
 			switch body {
 			case 0:
 			case 1:
@@ -232,6 +232,17 @@ func runC20(r *Run) {
 				}
 			case 3:
 				q.body = validLTX()
+			case 4:
+				// a snapshot-shaped file (TXID range starting at 1) that is cut
+				// short or corrupted: it must be refused without touching anything
+				if sb, _, err := SnapshotBytes(p.Store.DB(dbName)); err == nil && len(sb) > 120 {
+					if t.Chance(1, 2) {
+						q.body = sb[:t.Range(100, len(sb)-1)]
+					} else {
+						q.body = append([]byte(nil), sb...)
+						q.body[t.Range(100, len(sb)-1)] ^= 0x40
+					}
+				}
 			}
 			q.class = fmt.Sprintf("tx/%s/body%d/db=%v", q.method, body, dbExists)
 			if q.method == "POST" && body == 3 && q.body != nil && dbExists && target == p && idHdr != ownID {
